@@ -30,6 +30,8 @@ type Cfg struct {
 type Net struct {
 	S   *simkit.Sim
 	Cfg Cfg
+	// KeepReads makes every endpoint record its successful reads with timestamps.
+	KeepReads bool
 
 	nextConn int
 	Pipes    []*Pipe
@@ -243,7 +245,7 @@ func (e *End) Read(p []byte) (int, error) {
 		if ok {
 			if n > 0 {
 				e.BytesRead += n
-				if e.KeepReads {
+				if e.KeepReads || e.n.KeepReads {
 					e.Reads = append(e.Reads, ReadRec{At: s.Elapsed(), N: n})
 				}
 				poke(e.peer.wnotify)
